@@ -1195,12 +1195,23 @@ func lockOp(lock, read bool) handler {
 				panic(pathEnd{"cut"})
 			}
 			st.Mutex[k] = true
+			if st.LockEp == nil {
+				st.LockEp = map[int]int{}
+			}
+			st.LockEp[k]++
+			if st.RLocked == nil {
+				st.RLocked = map[int]bool{}
+			}
+			st.RLocked[k] = read
 		} else {
 			if !st.Mutex[k] {
 				in.obligation(st, "lock:unlock-free@"+site, "assert", site, False, "Unlock of a mutex that is not held")
 				panic(pathEnd{"cut"})
 			}
 			st.Mutex[k] = false
+			if st.RLocked != nil {
+				st.RLocked[k] = false
+			}
 		}
 		return TupleV{}
 	}
